@@ -75,6 +75,13 @@ def check(ctx):
     # the duplicate sets hold clones of the normalised labels and find them by their (derived) equality
     from rules import structs_common as _S
     _S.check_derived_impls(ctx, "R-1", {"core::clone::Clone", "core::cmp::PartialEq", "core::cmp::Eq"})
+    # ... and by their order: a BTreeSet finds a label only if cmp is Equal exactly on equal labels and a consistent total order
+    # otherwise (C16's decision-table evaluation, without its demand that the order be the CBOR one)
+    from rules import c16 as _c16
+    _c16.check(ctx.under("R-1", "label-order"), consistency_only=True)
+    # the entries walked are the map's own: try_as_map hands on the Vec inside Value::Map, unedited
+    from rules import extractors as _ex
+    _ex.check_extractors(ctx.under("R-1", "extractors"), "R-1", only={"try_as_map"})
     for key in DECODERS:
         check_decoder(ctx, key)
     # ... at every nesting position: no caller of a decoder turns the duplicate-label rejection into acceptance (C15 R-5's rule
@@ -131,3 +138,4 @@ def check(ctx):
 def _is_try_edge(c):
     from lib.prov import is_call
     return c[0][0] == "discr" and is_call(c[0][1], "core::ops::try_trait::Try::branch")
+META["decides"] += ' R-1 also (dependency closure): the label types order consistently (C16\'s decision tables evaluated for Equal-iff-equal, antisymmetry, transitivity - not for which order), and try_as_map hands on the map\'s own entries unedited.'
